@@ -228,7 +228,52 @@ def encodeInit (m : InitMsg) : Bytes := initSchema.encode ⟨[.bytes (first13 m.
 
 def InitMsg.wf (m : InitMsg) : Bool := decide (m.features.length < 2 ^ 16) && validTlvs initTlvs m.tlvs
 
+/-! ## OnionMessage
+
+  `impl LengthReadable for OnionMessage`: `blinding_point: PublicKey`, `len: u16`, then the onion packet read through
+  `FixedLengthReader::new(r, len)` by onion_message/packet.rs `impl LengthReadable for Packet`:
+  `hop_data_len = remaining_bytes().saturating_sub(66)` (remaining_bytes of a FixedLengthReader is the DECLARED length), version (u8),
+  public_key (validated), `hop_data_len` bytes, hmac (32 bytes).  Bytes after the packet are not read.
+  `impl Writeable`: blinding_point, `packet.serialized_length() as u16`, version, public_key, hop_data, hmac. -/
+
+/-- the constant of `remaining_bytes().saturating_sub(66)` as extracted from the source: 1 (version) + 33 (pubkey) + 32 (HMAC) -/
+def onionMsgOverhead : Nat := onionPacketOverheadPinned
+
+/-- the fields of the packet, given the length of its hop data -/
+def packetTys (hopLen : Nat) : List FieldTy := [Hand.u8, Hand.point, .fixed hopLen .any, Hand.h32]
+
+/-- the value of an OnionMessage: blinding point, packet fields [version, public_key, hop_data, hmac] -/
+structure OnionMsg where
+  blinding : Val
+  packet : List Val
+  deriving DecidableEq, Repr
+
+def hopLenOf : List Val → Nat
+  | [_, _, .bytes h, _] => h.length
+  | _ => 0
+
+/-- mirrors `impl LengthReadable for OnionMessage` + `impl LengthReadable for Packet`; the sub-reader hands out at most `len` bytes of
+    what is left (`b2.take len`).  Result: the message and the unread rest. -/
+def decodeOnionMsg (b : Bytes) : Res (OnionMsg × Bytes) :=
+  match Hand.point.decode b with
+  | .error e => .error e
+  | .ok (bp, b1) =>
+    match readUint 2 b1 with
+    | .error e => .error e
+    | .ok (len, b2) =>
+      match decodeFixed (packetTys (len - onionMsgOverhead)) (b2.take len) with
+      | .error e => .error e
+      | .ok (pv, _) => .ok (⟨bp, pv⟩, b2.drop len)
+
+/-- mirrors `impl Writeable for OnionMessage` -/
+def encodeOnionMsg (m : OnionMsg) : Bytes :=
+  Hand.point.encode m.blinding ++ (beEncode 2 (onionMsgOverhead + hopLenOf m.packet) ++ encodeFixed (packetTys (hopLenOf m.packet)) m.packet)
+
+/-- a valid blinding point, packet fields in range, and the packet fits the u16 length -/
+def OnionMsg.wf (m : OnionMsg) : Bool :=
+  Hand.point.valid m.blinding && validFixed (packetTys (hopLenOf m.packet)) m.packet && decide (onionMsgOverhead + hopLenOf m.packet < 2 ^ 16)
+
 /-- names of the messages handled by the decoders above -/
-def customNames : List String := ["UnsignedNodeAnnouncement", "NodeAnnouncement", "QueryShortChannelIds", "ReplyChannelRange", "Init"]
+def customNames : List String := ["UnsignedNodeAnnouncement", "NodeAnnouncement", "QueryShortChannelIds", "ReplyChannelRange", "Init", "OnionMessage"]
 
 end Ldk.Codec.Custom
